@@ -29,12 +29,16 @@ theorem truncateUsername_length (u : String) : (truncateUsername u).toList.lengt
   exact Nat.min_le_left _ _
 
 /-- a short user name is not changed -/
-theorem truncateUsername_of_short {u : String} (h : u.toList.length ≤ maxUserLen) : truncateUsername u = u := by
+theorem truncateUsername_of_short {u : String} (h : u.toList.length ≤ maxUserLen) (hs : Spaceless u) : truncateUsername u = u := by
   unfold truncateUsername takeChars
-  rw [List.take_of_length_le h, String.ofList_toList]
+  rw [firstWord_of_spaceless hs, List.take_of_length_le h, String.ofList_toList]
 
-theorem truncateUsername_spaceless {u : String} (h : Spaceless u) : Spaceless (truncateUsername u) :=
-  spaceless_takeChars h _
+/-- whatever was handed over: the stored user name has no space -/
+theorem truncateUsername_spaceless' (u : String) : Spaceless (truncateUsername u) :=
+  spaceless_takeChars (spaceless_firstWord u) _
+
+theorem truncateUsername_spaceless {u : String} (_h : Spaceless u) : Spaceless (truncateUsername u) :=
+  truncateUsername_spaceless' u
 
 /-- the condition only reads `username` and `id` -/
 theorem UOK.congr {s s' : Session} (h : UOK s) (h3 : s'.username = s.username) (h5 : s'.id = s.id) : UOK s' := by
